@@ -212,6 +212,7 @@ func targetsKind(ts []gens.JPExpr) string {
 	for i, t := range ts {
 		parts[i] = targetKind(t)
 	}
+	sort.Strings(parts) // the order of the targets is not part of the signature
 	return strings.Join(parts, "+")
 }
 
@@ -634,13 +635,23 @@ func sameObs(a, b *result) bool {
 
 const chunkDependent = "chunk-dependent"
 
+// quickSplitLen: in the quick tier the 2-fragment targets get every 2-split
+// only on texts up to this length (1-fragment targets: on every text).
+const quickSplitLen = 24
+
 // classify names every kind of discrepancy between the expected sequence and
-// the observation: panic:<kind> | error:<kind> | missing (an expected
-// location was not reported) | extra (a reported location is not expected, or
-// is reported again) | wrong-path (the value of a missing location was
-// delivered under a path that is not expected, or the path is not a normalised
-// path) | wrong-value | order.
-func classify(exp []*nodeInfo, r *result) []string {
+// the observation:
+//
+//	panic:<kind> | error:<kind>
+//	missing      an expected location was not reported
+//	wrong-value  an expected location was reported with another value
+//	order        expected locations were reported in another order
+//	wrong-path   a callback whose path is not a normalised path, or whose
+//	             (path, value) is not a (location, value) of the document while
+//	             its value is that of a location that is missing
+//	extra        any other callback that is not expected (including a second
+//	             callback for the same location)
+func classify(d *docInfo, exp []*nodeInfo, r *result) []string {
 	if r.pan != nil {
 		return []string{"panic:" + gens.JPPanicKind(r.pan)}
 	}
@@ -677,7 +688,17 @@ func classify(exp []*nodeInfo, r *result) []string {
 			missing = append(missing, i)
 		}
 	}
+	var realExtras []*nodeInfo // unexpected callbacks that are a real (location, value) of the document
 	for _, oi := range extras {
+		ps, normal := obsPath(r.cbs[oi].path)
+		if !normal {
+			kinds["wrong-path"] = true
+			continue
+		}
+		if ni := d.byLoc[ps[1:]]; ni != nil && valEq(ni.val, r.cbs[oi].val) {
+			realExtras = append(realExtras, ni)
+			continue
+		}
 		paired := false
 		for mi, ei := range missing {
 			if ei >= 0 && valEq(r.cbs[oi].val, exp[ei].val) {
@@ -686,11 +707,40 @@ func classify(exp []*nodeInfo, r *result) []string {
 				break
 			}
 		}
-		_, normal := obsPath(r.cbs[oi].path)
-		switch {
-		case paired || !normal:
+		if paired {
 			kinds["wrong-path"] = true
-		default:
+		} else {
+			kinds["extra"] = true
+		}
+	}
+	// One defect, one kind: an expected location that lies inside an
+	// unexpected callback was swallowed by it (the defect is the extra
+	// callback); an unexpected callback that lies inside a missing expected
+	// location is a fragment of it (the defect is the missing outer location).
+	inside := func(inner, outer *nodeInfo) bool {
+		return len(inner.pos) > len(outer.pos) && strings.HasPrefix(inner.pos, outer.pos)
+	}
+	for mi, ei := range missing {
+		if ei < 0 {
+			continue
+		}
+		for _, x := range realExtras {
+			if inside(exp[ei], x) {
+				missing[mi] = -2
+				kinds["extra"] = true
+				break
+			}
+		}
+	}
+	for _, x := range realExtras {
+		fragment := false
+		for _, ei := range missing {
+			if ei >= 0 && inside(x, exp[ei]) {
+				fragment = true
+				break
+			}
+		}
+		if !fragment {
 			kinds["extra"] = true
 		}
 	}
@@ -866,7 +916,7 @@ func (w *worker) runCase(d *document, targets []gens.JPExpr, alts [][][]string, 
 				}
 				ran[ex.label()] = true
 				if matchAny(seqs, &r) < 0 {
-					for _, k := range classify(seqs[0], &r) {
+					for _, k := range classify(di, seqs[0], &r) {
 						byKind[k] = append(byKind[k], failing{ex, form})
 					}
 					if level == 0 && !escalated { // learn which entries are affected
@@ -1061,7 +1111,7 @@ func run(c *core.Ctx) {
 				continue
 			}
 			level := 2
-			if len(idx) > 2 {
+			if len(idx) > 2 || (!thorough && len(idx) > 1 && len(d.js.text) > quickSplitLen) {
 				level = 1
 			}
 			c.Add("single_target_cases", 1)
@@ -1158,7 +1208,7 @@ func replay(c *core.Ctx, raw json.RawMessage) {
 		if matchAny(seqs, &r) >= 0 {
 			continue
 		}
-		for _, k := range classify(seqs[0], &r) {
+		for _, k := range classify(di, seqs[0], &r) {
 			c.Fail("replay|"+k, cs, size, showExp(seqs), showObs(&r))
 		}
 	}
